@@ -203,9 +203,27 @@ def t17_mcm(run, fx):
         run.ok(rule, "14 modifier combining marks, %d points evaluated" % len(pts))
 
 
+def t17_ord(run, fx):
+    rule = "T17-ORD"
+    run.rule(rule, "preprocess_indic applies its steps in the documented order: the vowel constraints are matched against the text as typed "
+                   "(before multi-part matras are split), and marks are sorted after the split: constrain_vowel -> decompose_matra -> "
+                   "sort_by_modified_combining_class on every path")
+    b = fx.body("scripts::indic::preprocess_indic")
+    if b is None:
+        return run.anchor_missing(rule, "scripts::indic::preprocess_indic")
+    import reach
+    ok, msg = reach.ordered_calls(b, ["scripts::indic::constrain_vowel", "scripts::indic::decompose_matra", "sort_by_modified_combining_class"])
+    if ok:
+        run.ok(rule, "preprocess_indic: %s" % msg)
+    else:
+        run.fail(rule, "indic-order", "preprocess_indic: %s" % msg, "%s:%s" % (b.file, b.line))
+
+
 def check(run, fx, tier, floors=True):
     if floors or fx.body("scripts::arabic::is_modifier_combining_mark") is not None:
         t17_mcm(run, fx)
+    if floors or fx.body("scripts::indic::preprocess_indic") is not None:
+        t17_ord(run, fx)
     r = t17_disp(run, fx)
     rule = "T17-EFF"
     run.rule(rule, "every use of the character buffer's mutable capability reachable from preprocess_text is a stable permutation primitive or a "
